@@ -364,7 +364,9 @@ pub fn json_text(m: &Model, r: &mut Rng) -> String {
 // ------------------------------------------------------------------ histories
 
 fn answers(r: &mut Rng) -> Vec<String> {
-    match r.below(6) {
+    match r.below(8) {
+        6 => vec!["n".into(), "y".into(), "n".into()],
+        7 => vec!["Yes".into(), "no".into(), "y".into()],
         0 | 1 => vec!["y".into()],
         2 => vec!["n".into()],
         3 => vec!["maybe".into(), "Y".into()],
@@ -390,8 +392,9 @@ pub fn gen_scn(d: &Data, r: &mut Rng, faulty: bool) -> Scn {
     let mut dirs: Vec<String> = vec![];
     let has_alias = !m.into.is_empty() || !m.from.is_empty();
     let stems = ["r", "rules", "lang-a", "my rules"];
-    let rs = format!("{}.rsca", r.pick(&stems));
-    let ws = format!("{}.wsca", r.pick(&["w", "lex", "words-1"]));
+    // the tool also accepts .txt for word, rule and alias files
+    let rs = format!("{}.{}", r.pick(&stems), if r.chance(1, 10) { "txt" } else { "rsca" });
+    let ws = format!("{}.{}", r.pick(&["w", "lex", "words-1"]), if r.chance(1, 10) { "txt" } else { "wsca" });
     let al = "a.alias".to_string();
     files.insert(rs.clone(), render_rsca(&m.rules, &fmt, r));
     meaning.insert(rs.clone(), Meaning::Rules(m.rules.clone()));
